@@ -17,7 +17,6 @@ impl PathBuf {
 #[verifier::external_body] pub fn rt_msg() -> (r: String) { unimplemented!() }
 #[verifier::external_body] pub fn string_clone(a: &String) -> (r: String) ensures r@ == a@ { unimplemented!() }
 #[verifier::external_body] pub fn string_ne(a: &String, b: &String) -> (r: bool) ensures r == (a@ != b@) { unimplemented!() }
-#[verifier::external_body] pub fn read_gom_sources(dir: &PathBuf) -> (r: Result<Vec<PathBuf>, CompilationError>) { unimplemented!() }
 #[verifier::external_body] pub fn fs_read_to_string(p: &PathBuf) -> (r: Result<String, CompilationError>) { unimplemented!() }   // fs::read_to_string(..).map_err(..)
 #[verifier::external_body] pub fn parse_ast_file(p: &PathBuf, src: &String) -> (r: Result<AstFile, CompilationError>) { unimplemented!() }
 #[verifier::external_body] pub fn collect_imports(files: &Vec<SourceFileAst>) -> (r: HashSet<String>) { unimplemented!() }
@@ -27,3 +26,15 @@ impl PathBuf {
 pub open spec fn one_package(u: PackageUnit) -> bool {
     forall|i: int| 0 <= i < u.files@.len() ==> (#[trigger] u.files@[i]).ast.package.0@ == u.name@
 }
+
+// ---- read_gom_sources: the order of a package's files must not depend on the directory's enumeration order (C13) ----
+#[verifier::external_body] pub struct ReadDir { _p: u64 }          // fs::ReadDir: entries in an OS-dependent order
+#[verifier::external_body] pub struct DirEntry { _p: u64 }
+impl ReadDir { #[verifier::external_body] pub fn next_entry(&mut self) -> (r: Option<Result<DirEntry, CompilationError>>) { unimplemented!() } }   // Iterator::next (+ map_err)
+impl DirEntry { #[verifier::external_body] pub fn path(&self) -> (r: PathBuf) { unimplemented!() } }
+#[verifier::external_body] pub fn fs_read_dir(dir: &PathBuf) -> (r: Result<ReadDir, CompilationError>) { unimplemented!() }    // fs::read_dir(..).map_err(..)
+#[verifier::external_body] pub fn has_gom_extension(p: &PathBuf) -> (r: bool) { unimplemented!() }                            // path.extension().is_some_and(|ext| ext == "gom")
+// the sequence is in the (total) order of PathBuf: its order is a function of its contents
+pub uninterp spec fn paths_sorted(s: Seq<PathBuf>) -> bool;
+#[verifier::external_body] pub fn vec_sort_paths(v: &mut Vec<PathBuf>) ensures paths_sorted(final(v)@) { unimplemented!() }     // <[PathBuf]>::sort
+
